@@ -422,7 +422,67 @@ func execCoScript(ops []Op) []string {
 	}
 	noteTrace(toks)
 	out = append(out, "C06M run 20000 => "+strings.Join(toks, " "))
+	// the guard of the history-level simulation theorem (lean: CoScript.okProg), computed here and compared with Lean's
+	// own evaluation: how much of the tie lies inside the fragment the theorem covers is part of the evidence
+	in := coInFragment(p)
+	noteFragment(in)
+	out = append(out, "C06M okprog => "+b01(in))
 	return out
+}
+
+// coInFragment mirrors lean/GLua/Spec/CoScript.lean `okProg`: acts create/resume/wrapped call (also under pcall), yield
+// (also tail-called), return, error, status, running, Lua calls, for-in over a wrapped coroutine; coroutine ids 1..4 with
+// Lua bodies; np <= nused;
+// the main chunk has no named parameters.
+func coInFragment(p *coProg) bool {
+	for _, f := range p.fns {
+		if f.np > f.nused {
+			return false
+		}
+		for _, a := range f.acts {
+			switch a.kind {
+			case "y", "ret", "err", "run", "call":
+			case "r":
+				if a.j < 1 || a.j > 4 {
+					return false
+				}
+			case "st":
+				if a.j < 1 || a.j > 4 {
+					return false
+				}
+			case "for":
+				if a.j < 1 || a.j > 4 || a.nvars < 1 {
+					return false
+				}
+			default: // hy
+				return false
+			}
+		}
+	}
+	for j, c := range p.cos {
+		if j < 1 || j > 4 || c.body < 0 {
+			return false
+		}
+	}
+	if m, ok := p.fns[0]; ok && (m.np != 0 || m.vararg) {
+		return false
+	}
+	return true
+}
+
+var fragStat struct {
+	sync.Mutex
+	in, out int
+}
+
+func noteFragment(in bool) {
+	fragStat.Lock()
+	defer fragStat.Unlock()
+	if in {
+		fragStat.in++
+	} else {
+		fragStat.out++
+	}
 }
 
 // ---------- generator ----------
@@ -472,6 +532,10 @@ func (g *coGen) act(f int, kind string, rest ...string) {
 // (frame depth), tail-called yields, errors, wrapped/plain, protected calls, generators in for-in, probes.
 func genCoCase(r *Rng) []Op {
 	g := &coGen{r: r}
+	// ≈ 45 % of the scripts are forced to stay inside the fragment of the simulation theorem (no Go-function body;
+	// historically also no for-in, which keeps a share of scripts without generators): there Model = Spec is proved for
+	// every history, and the tie shows Impl = Model
+	frag := r.Chance(45)
 	nco := r.Range(1, coMax)
 	if r.Chance(35) {
 		nco = 1
@@ -490,7 +554,7 @@ func genCoCase(r *Rng) []Op {
 	for j := 1; j <= nco; j++ {
 		c := &cs[j]
 		c.wrapped = r.Chance(40)
-		c.gbody = r.Chance(4)
+		c.gbody = !frag && r.Chance(4)
 		c.owner = 0
 		if j > 1 && r.Chance(55) {
 			c.owner = r.Range(1, j-1)
@@ -528,7 +592,7 @@ func genCoCase(r *Rng) []Op {
 		for j := 1; j <= nco; j++ {
 			if self >= 0 && cs[j].owner == self {
 				n := cs[j].yields + 1 + Pick(r, []int{-1, 0, 0, 0, 0, 1})
-				if cs[j].wrapped && r.Chance(15) {
+				if !frag && cs[j].wrapped && r.Chance(15) {
 					items = append(items, item{"for", j})
 					continue
 				}
@@ -1032,7 +1096,7 @@ func runC06M(run *Run) {
 	if run.Tier == "thorough" {
 		nCases = 40000
 	}
-	run.Rule = "scripted coroutine histories (1–4 coroutines, plain/wrapped/Go-function bodies, owners resuming ≈ yields+1 times, payload counts 0–4 both ways independent of wanted counts 0–4/open-ended, nested resumes, helper calls (frame depth), tail-called yields, errors with arbitrary values, protected calls, generators in for-in, status/running probes, ≈5% deliberately invalid resumes) rendered as Lua programs and run on the real interpreter; whole observable trace compared with the Lean Model (exact) and the manual Spec (exact); plus Go-API histories (NewThread/Resume/Yield from host functions); distinct = distinct act-kind skeletons"
+	run.Rule = "scripted coroutine histories (1–4 coroutines, plain/wrapped/Go-function bodies, owners resuming ≈ yields+1 times, payload counts 0–4 both ways independent of wanted counts 0–4/open-ended, nested resumes, helper calls (frame depth), tail-called yields, errors with arbitrary values, protected calls, generators in for-in, status/running probes, ≈5% deliberately invalid resumes) rendered as Lua programs and run on the real interpreter; whole observable trace compared with the Lean Model (exact) and the manual Spec (exact); plus Go-API histories (NewThread/Resume/Yield from host functions); ≥45 % of the scripts lie inside the fragment of the proved history-level simulation (guard okProg: everything but Go-function bodies; its Go mirror is compared with Lean's evaluation per script); distinct = distinct act-kind skeletons"
 	run.Assume = []string{
 		"register offsets of calls inside Lua frames (`a`) are a layout parameter of the Model; Lua-visible behaviour is compared, the theorems quantify over every layout",
 		"texts of the library's refusal messages are mapped to tokens (dead/running/normal/outside) by suffix",
@@ -1101,6 +1165,9 @@ func runC06M(run *Run) {
 	runCases(run, cases, execCoAPI, classifyTagged)
 	run.Extra["feature_histogram"] = feat
 	run.Extra["trace_tokens"] = traceStats()
+	fragStat.Lock()
+	run.Extra["scripts_in_simulation_fragment"] = map[string]int{"inside (history_simulation_partial applies)": fragStat.in, "outside (run-time comparison only)": fragStat.out}
+	fragStat.Unlock()
 }
 
 var traceStat struct {
